@@ -2,12 +2,17 @@
    derivative matcher, against BnodeId::new / VarName::new / LanguageTag::new (val3_ok); the byte -> text layer
    of the parser entry points against String::from_utf8 and the JSON-LD parser's UTF-8 error (utf8_ok, Utf8.v);
    every way of driving a parser's source, again after Err / Ok / exhaustion, against what the required method
-   try_for_some_item gives on a fresh source (hist_ok, Source.v). *)
+   try_for_some_item gives on a fresh source (hist_ok, Source.v); (round 7) the rendered error messages of the error
+   stream against str::is_char_boundary and the coverage of every cut offset by the four shifts of the long token
+   (msg_ok, family_covers, Messages.v); the accessors of the literals the parsers yield against the raw literal
+   (lit_ok, Literal.v). *)
 From Sophia.Common Require Export Prelude.
 From Sophia.C08 Require Export Regex.
 From Sophia.gen Require Export LabelSrc.
 From Sophia.C08 Require Export Utf8.
 From Sophia.C08 Require Export Source.
+From Sophia.C08 Require Export Messages.
+From Sophia.C08 Require Export Literal.
 
 Definition val3_ok (s : str) (bnode var tag : bool) : bool :=
   Bool.eqb (matchb bnode_id_regex s) bnode && Bool.eqb (matchb varname_regex s) var
